@@ -235,6 +235,8 @@ impl<T> VxIter<T> {
             r.seq().len() == self.seq().len() * other.seq().len(),
             forall|i: int, j: int| 0 <= i < self.seq().len() && 0 <= j < other.seq().len()
                 ==> #[trigger] r.seq()[i * other.seq().len() + j] == (self.seq()[i], other.seq()[j]),
+            forall|k: int| 0 <= k < r.seq().len() && other.seq().len() > 0
+                ==> #[trigger] r.seq()[k] == (self.seq()[k / (other.seq().len() as int)], other.seq()[k % (other.seq().len() as int)]),
     { unimplemented!() }
 
     #[verifier::external_body]
